@@ -2,6 +2,7 @@
 """Confirms a seeded change delivered by a sub-agent and runs the checks against it.
 
   lib/seedtest.py <Cxx> [--checks C01,C05] [--tier quick] [--keep] [--src <dir with changeN.diff, demoN/, meta.json>] [--offset k]
+                  [--demo-flags "-race"] [--only-change N]
 
 For every /tmp/seedout_<Cxx>/changeN.diff: scratch worktree of /repo HEAD, (1) demo passes on the clean tree,
 (2) apply the diff, existing suite passes, (3) demo fails, (4) the property's check (and --checks) run with
@@ -35,6 +36,9 @@ def pkg_dir(testfile):
     return "internal/" + name
 
 
+DEMO_FLAGS = []
+
+
 def run_demo(wt, demo_dir):
     dirs = set()
     copied = []
@@ -50,7 +54,7 @@ def run_demo(wt, demo_dir):
         if shs:
             return sh(["sh", shs[0], wt], cwd=demo_dir, timeout=1200)
         return None, "no *_test.go / *.sh demo files"
-    rc, out = sh(["go", "test", "-vet=off", "-count=1", "-run", "Seed|seed|Demo", "-timeout", "600s"] + sorted(dirs), cwd=wt)
+    rc, out = sh(["go", "test", "-vet=off", "-count=1", "-run", "Seed|seed|Demo", "-timeout", "600s"] + DEMO_FLAGS + sorted(dirs), cwd=wt)
     for c in copied:
         os.remove(c)
     return rc, out
@@ -71,6 +75,11 @@ def main():
         out_dir = sys.argv[sys.argv.index("--src") + 1]
     if "--offset" in sys.argv:
         offset = int(sys.argv[sys.argv.index("--offset") + 1])
+    if "--demo-flags" in sys.argv:  # e.g. "-race" or "-tags verif" for demonstrations that say they need them
+        DEMO_FLAGS.extend(sys.argv[sys.argv.index("--demo-flags") + 1].split())
+    only = None
+    if "--only-change" in sys.argv:
+        only = int(sys.argv[sys.argv.index("--only-change") + 1])
     meta_in = {}
     try:
         meta_in = json.load(open(os.path.join(out_dir, "meta.json")))
@@ -79,6 +88,8 @@ def main():
     diffs = sorted(glob.glob(os.path.join(out_dir, "change*.diff")))
     summary = []
     for n, diff in enumerate(diffs, 1):
+        if only is not None and n != only:
+            continue
         wt = "/tmp/sw_%s_%d" % (pid, n)
         sh(["git", "-C", "/repo", "worktree", "remove", "--force", wt])
         shutil.rmtree(wt, ignore_errors=True)
